@@ -90,6 +90,15 @@ Definition desc_eqb (a b : desc T) : bool :=
       end
   end.
 
+(* SurfaceT4.__hash__: the hash of the tuple (type, params) resp.
+   (type, params, tuple(t.flat), tuple(R.flat)); [h] hashes one number, [mix] is
+   the tuple hash (both are Python's; only their being functions matters) *)
+Definition desc_hash (h : T -> Z) (mix : list Z -> Z) (d : desc T) : Z :=
+  match dtrans d with
+  | None => mix [Z.of_N (dtype d); mix (map h (dparams d))]
+  | Some (t, r) => mix [Z.of_N (dtype d); mix (map h (dparams d)); mix (map h t); mix (map h r)]
+  end.
+
 (* sorted(surfs.items()): keys of a dict are distinct, so the tuple comparison
    never reaches the surfaces *)
 Fixpoint insert_sorted {V : Type} (kv : Z * V) (l : list (Z * V)) : list (Z * V) :=
@@ -126,11 +135,15 @@ End Dedup.
 
 (* ---------- VolumeT4 ---------- *)
 Inductive opk := OUnion | OInte.
-Record volu := mkVolu {
+Record volu := MkVolu {
   pluses : list Z;                 (* set *)
   minuses : list Z;                (* set *)
   ops : option (opk * list Z);
-  fictive : bool }.
+  fictive : bool;
+  vorigin : list (Z * Z) }.        (* idorigin: the provenance printed after ENDV *)
+
+(* a volume without provenance (level-0 cells, helper volumes) *)
+Definition mkVolu (p m : list Z) (o : option (opk * list Z)) (f : bool) : volu := MkVolu p m o f [].
 
 (* set(renumbering[s] for s in l) *)
 Fixpoint renumber_ids (ren : list (Z * Z)) (l : list Z) : res (list Z) :=
@@ -149,7 +162,7 @@ Definition renumber_volu (ren : list (Z * Z)) (v : volu) : res volu :=
   | Ok p =>
       match renumber_ids ren (minuses v) with
       | Err e => Err e
-      | Ok m => Ok (mkVolu (zset_of_list p) (zset_of_list m) (ops v) (fictive v))
+      | Ok m => Ok (MkVolu (zset_of_list p) (zset_of_list m) (ops v) (fictive v) (vorigin v))
       end
   end.
 
@@ -185,7 +198,7 @@ Fixpoint remove_step (u0 u1 : Z) (to_remove : list Z) (dic : list (Z * volu)) (g
       | Some v =>
           match ops v with
           | Some (OUnion, _) =>
-              remove_step u0 u1 r (update k (mkVolu [u0] [u1] (ops v) (fictive v)) dic) gone
+              remove_step u0 u1 r (update k (MkVolu [u0] [u1] (ops v) (fictive v) (vorigin v)) dic) gone
           | _ => remove_step u0 u1 r (remove_key k dic) (gone ++ [k])
           end
       end
@@ -204,7 +217,7 @@ Fixpoint prune_ops (removed : list Z) (dic : list (Z * volu)) : list (Z * volu) 
       | Some (OUnion, args) =>
           let args' := filter (fun c => negb (memZ c removed)) args in
           let o := match args' with [] => None | _ => Some (OUnion, args') end in
-          ((k, mkVolu (pluses v) (minuses v) o (fictive v)) :: r', tr)
+          ((k, MkVolu (pluses v) (minuses v) o (fictive v) (vorigin v)) :: r', tr)
       end
   end.
 
@@ -298,12 +311,17 @@ Inductive geom :=
 | GNode (op : bool) (args : list geom).
 
 (* what inlining and pot_fill read of a CellMCNP *)
-Record mcell := mkCell {
+Record mcell := MkCell {
   cuniv : Z;
   cfill : option Z;        (* fillid (plain universe number) *)
-  cgeom : geom }.
+  cgeom : geom;
+  corigin : list (Z * Z);  (* idorigin: (filler, container) pairs, innermost first *)
+  cmat : Z }.              (* stands for (materialID, density): what GEOMCOMP uses *)
 
-Definition set_geom (c : mcell) (g : geom) : mcell := mkCell (cuniv c) (cfill c) g.
+(* a cell as parsed: no provenance, material tag 0 *)
+Definition mkCell (u : Z) (f : option Z) (g : geom) : mcell := MkCell u f g [] 0.
+
+Definition set_geom (c : mcell) (g : geom) : mcell := MkCell (cuniv c) (cfill c) g (corigin c) (cmat c).
 
 (* every CellRef of a tree, left to right *)
 Fixpoint refs (g : geom) : list Z :=
@@ -505,6 +523,16 @@ Fixpoint fill_each (rec : Z -> fstate -> res (list Z * fstate)) (elts : list Z) 
       end
   end.
 
+(* new_cell = cell.copy() with the filler's material and provenance:
+   idorigin = filler's idorigin + [(innermost filler, outermost container)] *)
+Definition origin_head (o : list (Z * Z)) (dflt : Z) : Z :=
+  match o with [] => dflt | (a, _) :: _ => a end.
+
+Definition filled_cell (key : Z) (cell : mcell) (e : Z) (ec : mcell) (g : geom) : mcell :=
+  MkCell (cuniv cell) None g
+         (corigin ec ++ [(origin_head (corigin ec) e, origin_head (corigin cell) key)])
+         (cmat ec).
+
 (* one new cell per element of to_process *)
 Fixpoint make_cells (fd fg : bool) (key : Z) (cell : mcell) (elts : list Z) (st : fstate) (acc : list Z)
   : res (list Z * fstate) :=
@@ -516,7 +544,7 @@ Fixpoint make_cells (fd fg : bool) (key : Z) (cell : mcell) (elts : list Z) (st 
       | Some ec =>
           let g := fill_geometry fd fg key (cgeom cell) e (cgeom ec) in
           let k' := snd st + 1 in
-          make_cells fd fg key cell r (update k' (mkCell (cuniv cell) None g) (fst st), k') (acc ++ [k'])
+          make_cells fd fg key cell r (update k' (filled_cell key cell e ec g) (fst st), k') (acc ++ [k'])
       end
   end.
 
